@@ -21,7 +21,7 @@ RULE = ("case = (gradient form f:>p / f:>sym / sym∇f / p∂g / loss:>[w b] / [
 ASSUMPTIONS = ["the harness callable inside the loss is the identity (it preserves gradient tracking on torch) and only counts / raises",
                "k ranges over every evaluation index of the clean run up to 12, then first / middle / last"]
 MIN_COUNTS = {"quick": {"nontrivial": 600, "faulted_runs": 1200, "clean_runs": 200, "snapshots_compared": 1500},
-              "thorough": {"nontrivial": 20000, "faulted_runs": 15000, "clean_runs": 2000, "snapshots_compared": 20000}}
+              "thorough": {"nontrivial": 15000, "faulted_runs": 15000, "clean_runs": 2000, "snapshots_compared": 20000}}
 CASE_TIMEOUT = 300
 
 VECS = {"fvec": "[0.3 0.7 1.1]", "fvec2": "[2.3 13.7]", "ivec": "[1 2 3]", "fscalar": "1.1", "iscalar": "2", "fmat": "[[0.3 0.7] [1.1 2.3]]", "fvec1": "[0.7]"}
@@ -38,8 +38,20 @@ def cases(tier, seed):
                     for body in ("sumsq", "prod", "mixed"):
                         if form in ("jac-literal", "multi-jac", "jac-symbol-point", "multi-jac-dup") and pk in ("fscalar", "iscalar"):
                             continue
-                        out.append({"form": form, "param": pk, "backend": backend, "fault": fault, "salt": 0, "body": body})
+                        for salt in range(1 if tier == "quick" else 20):
+                            out.append({"form": form, "param": pk, "backend": backend, "fault": fault, "salt": salt + (0 if salt == 0 else 1000 * seed), "body": body})
     return out
+
+
+def _literal(pk, salt):
+    """The point literal of a parameter kind; salt 0 is the fixed grid, other salts draw the numbers (same shape and kind)."""
+    if salt == 0:
+        return VECS[pk]
+    r = random.Random("%s/%d" % (pk, salt))
+    f = lambda: repr(round(r.uniform(0.2, 3.0), 3))
+    i = lambda: str(r.randint(1, 6))
+    return {"fvec": "[%s %s %s]" % (f(), f(), f()), "fvec2": "[%s %s]" % (f(), f()), "ivec": "[%s %s %s]" % (i(), i(), i()), "fscalar": f(), "iscalar": i(),
+            "fmat": "[[%s %s] [%s %s]]" % (f(), f(), f(), f()), "fvec1": "[%s]" % f()}[pk]
 
 
 def init_shard(tier, seed):
@@ -100,7 +112,7 @@ def _setup(case):
         return x
     k["hook"] = hook
     pk = case["param"]
-    lit = VECS[pk]
+    lit = _literal(pk, case.get("salt", 0))
     scalar = pk in ("fscalar", "iscalar")
     form = case["form"]
     body = case["body"]
@@ -142,7 +154,7 @@ def _setup(case):
 
 
 def run_case(ctx, case):
-    res = {"nontrivial": False, "counters": {}, "violations": [], "key": repr({a: b for a, b in case.items() if a != "salt"})}
+    res = {"nontrivial": False, "counters": {}, "violations": [], "key": repr(case)}
     cnt = res["counters"]
     k, state, pre, expr, fcall = _setup(case)
     for s in pre:
